@@ -427,6 +427,16 @@ func c10JudgeOne(c *fw.Ctx, kind string, d []byte, L uint32, wantT, wantE string
 	lf := ch.Leaf()
 	c.Count("verdict_"+wantE, 1)
 	if lf.T != wantT || lf.Ext != wantE {
+		// a sibling string drawn from the source literals may put another format's pinned
+		// signature at the offset where that format looks for it (BOOKMOBI at 60 …): the
+		// statement of C08 calls this the higher-priority exception
+		if v, why := jsonFamilyOrException(baseTree(), ch); v == "exception" {
+			if okx, _ := exceptionJustified(why, lib.Header(d, L)); okx {
+				c.Count("exception_higher_priority_format", 1)
+				c.SetAdd("exception_formats", why)
+				return
+			}
+		}
 		c.Violate("wrong-json-subtype", key,
 			fmt.Sprintf("expected %s|%s from the top-level members, got %s; document %s limit %d", wantT, wantE, ch, fw.Quote(d, 160), L),
 			fw.InCase{Kind: kind, In: d, Limit: L, Entry: entry, Aux: wantT + "|" + wantE, InQ: fw.Quote(d, 160)})
